@@ -465,8 +465,30 @@ def run_case(prop, seed, case):
         if prop == 'C08':
             bad = c08_oracle(w, nl, before, libs_before)
             if not bad and mids and rng.random() < 0.5:
-                # history after: one more instance of a cell that was cloned from, then uniquify again
-                do(['create', 'children', str(info['top_def']), netgen.tok_of_s('again'), '0', '0', str(rng.choice(mids))])
+                # history after: one more instance of a cell that was cloned from, then uniquify again; the new
+                # instance is placed in the top cell or inside an (already unique) cell further down, where it
+                # instantiates a cell found below that cell
+                placed = False
+                if rng.random() < 0.5:
+                    def below(d, acc):
+                        for c in d.children:
+                            r = c.reference
+                            if r is not None and id(r) not in acc:
+                                acc[id(r)] = r
+                                below(r, acc)
+                        return acc
+                    topd = w.objs[info['top_def']]
+                    cands = []
+                    for dd in below(topd, {}).values():
+                        subs = [r for r in below(dd, {}).values() if len(r.children) > 0 and id(r) in w.index]
+                        if subs and id(dd) in w.index:
+                            cands.append((dd, subs))
+                    if cands:
+                        dd, subs = rng.choice(cands)
+                        do(['create', 'children', str(w.index[id(dd)]), netgen.tok_of_s('again'), '0', '0', str(w.index[id(rng.choice(subs))])])
+                        placed = True
+                if not placed:
+                    do(['create', 'children', str(info['top_def']), netgen.tok_of_s('again'), '0', '0', str(rng.choice(mids))])
                 before = elab.elaborate(n)
                 libs_before = dict((id(lib), (set(id(d) for d in lib.definitions), set(d.name for d in lib.definitions))) for lib in n.libraries)
                 out = do(['uniquify', str(nl), FUEL])
@@ -496,6 +518,24 @@ def run_case(prop, seed, case):
             fails.append({'step': len(hist) - 1, 'oracle': 'Flatten', 'failures': ['flatten raised (%s)' % out]})
         else:
             bad = c09_oracle(w, nl, before)
+            leaves = list(info['layers'][0]) if len(info['layers']) >= 2 else []
+            if not bad and len(leaves) >= 2 and rng.random() < 0.4:
+                # history after: a cell that was a leaf (a black box) is filled in with an instance of another
+                # leaf cell, so it is no longer a leaf, and the same netlist is flattened again - anything the
+                # transformation remembers about definitions between calls shows here
+                used = [d for d in leaves if any(ref == d for kids in info['children'].values() for (_x, ref) in kids)]
+                if used:
+                    d = rng.choice(used)
+                    other = rng.choice([x for x in leaves if x != d])
+                    do(['create', 'children', str(d), netgen.tok_of_s('fill'), '0', '0', str(other)])
+                    before = elab.elaborate(n)
+                    out = do(['uniquify', str(nl), FUEL])   # flatten requires a uniquified netlist
+                    if out == 'ok':
+                        out = do(['flatten', str(nl), FUEL])
+                    if out != 'ok':
+                        bad.append('second flatten (after filling in a leaf cell) raised (%s)' % out)
+                    else:
+                        bad = c09_oracle(w, nl, before)
             if bad:
                 fails.append({'step': len(hist) - 1, 'oracle': 'Flatten', 'failures': bad[:6]})
         return dict(ops=hist, dumps=dumps, fails=fails, kind='depth%d' % len(info['layers']))
